@@ -194,9 +194,9 @@ theorem encode_utf8 (g : Nat → UInt64 → Bytes) (m : Mode) (hg : H1 g) (v : E
 /-- `Xdl::decode(Xdl::encode(v, mode))`, compact or PRETTY, for trees whose keys are identifiers (`WFX`: a
     letter, digit, `_` or `$`, then letters, digits, `_` — `$type` is one of them and may hold ANY value): the
     result is `xnorm v` — same structure, same keys, strings, booleans (written `Y`/`N`), numbers as the
-    decoder classifies their lexemes, undefined members dropped (nesting ≤ 1000).  A `$type` that is a class
-    name (`validCls`, exactly the encoder's `isClassName` by `xdl_class_name_test`) is written in class
-    notation and comes back as the member `$type`; any other `$type` is written as an ordinary property.  PRETTY separates members and long arrays by newlines only,
+    decoder classifies their lexemes, undefined members dropped (nesting ≤ 1000).  A `$type` that passes the
+    encoder's `isClassName` test (`validCls`, by `xdl_class_name_test`) is written in class notation and comes
+    back as the member `$type`; any other `$type` is written as an ordinary property.  PRETTY separates members and long arrays by newlines only,
     which the parser reads in its WAIT_COMMA_OR_* states. -/
 theorem xdl_roundtrip (g : Nat → UInt64 → Bytes) (m : Mode) (hj : m.json = false)
     (hg : H1 g) (v : EV) (hw : AslProofs.XdlX.WFX v) (hd : AslProofs.XdlX.xdepth v ≤ 1000) :
@@ -216,8 +216,12 @@ theorem xdl_file_roundtrip (g : Nat → UInt64 → Bytes) (m : Mode) (hj : m.jso
     (hw : AslProofs.XdlX.WFX v) : readFile (writeChunks g m v).flatten = decode (encode g m v) :=
   AslProofs.XdlX.xdl_file_roundtrip g m hj hg v hw
 
-/-- the encoder uses class notation exactly for the `$type` strings the decoder reads back as a class name:
-    first character a letter, `_` or `$`, then letters, digits, `_`, `.`, and not `Y`, `N`, `true`, `false`, `null` -/
+/-- the encoder's `isClassName` test, restated as the predicate `validCls` (a definitional restatement of the
+    boolean test: first character a letter, `_` or `$`, then letters, digits, `_`, `.`, and not `Y`, `N`, `true`,
+    `false`, `null`).  What is proved about `validCls` is SUFFICIENCY: every such name written in front of `{` is
+    read back by the decoder as the member `$type` (`class_open`, used by `xdl_roundtrip`).  Necessity — that no
+    other string would survive class notation — is not proved.
+    Suggested by the audit, open: `¬ validCls c → c ≠ [] → decode (c ++ [123, 125]) ≠ some (some (.obj [(classKey, .str c)]))`. -/
 theorem xdl_class_name_test (v : EV) (c : Bytes) :
     clsName v = some c ↔ v = .str c ∧ AslProofs.XdlX.validCls c :=
   AslProofs.XdlX.clsName_iff v c
